@@ -114,7 +114,7 @@ CRON = {
     "vh": "cron",
     "design": {
         "quick": _cron_design(["core", "recon", "two_small", "catchup"], 600),
-        "thorough": _cron_design(["core", "recon", "two", "catchup_big", "big"], 2400),
+        "thorough": _cron_design(["core", "recon", "two", "catchup_big", "mid"], 2400),
     },
     "sim": {
         "quick": [{"module": "Cron_Sim.tla", "cfg": "Cron_Sim_a.cfg", "num": 150, "depth": 45, "harness_cfg": CRON_HCFG, "timeout": 600}],
@@ -286,7 +286,12 @@ LEVEL_TEXT["C18"] = "A functional TLA+ specification (Options.tla) defines Eval(
 LEVEL_TEXT["C16"] = "A functional TLA+ specification (Admission.tla) defines the defaulted object of a Job request as a function of which optional fields are present (type, TTL, template, maxAttempts, pending timeout, parallelism strategy, restart policy, finalizers) and of the dynamic-config defaults, the result of configName expansion (owner reference, UID label and template always the JobConfig's; its concurrency policy only when none was given; explicit substitutions over option values over JobConfig defaults; submitted labels over template labels), and the lastUpdated stamping rule for create / schedule changed / unchanged x user-supplied lastUpdated; TLC enumerates ~16 800 requests, checks that defaulting is a fixpoint on the specification, and every case is sent as a raw AdmissionRequest (optional fields really absent) through the real mutating (and for configName also validating) webhooks, the patch applied with the API server's JSON-patch library; TLC judges defaulted object = Mutate(case), second pass = first, patch applies and equals the typed defaulted object."
 LEVEL_TEXT["C17"] = "The same specification defines which single-field Job updates must be refused (task template, parallelism, attempts, retry delay, type, option values, substitutions, JobConfig UID label always; start policy once started; kill timestamp once passed) and the implication chain accepted => loadable by the cron scheduler => bumpable => instantiable => the Job passes defaulting and validation => task objects can be built; TLC enumerates every (field, changed, how, started, kill passed) update and a corpus of 2 065 cron schedules (34 expression shapes incl. H forms, macros, L/W/#, ?, year-bounded and never-matching ones x 15 time-zone forms x 2 formats x hashing on/off, multi-expression lists); each update goes through the real validating webhook and each corpus element through the real JobConfig webhooks, cronschedule.New / Bump, NewJobFromJobConfig, the Job webhooks and NewPod; TLC compares the decisions."
 DESIGN_REF = {p: "DESIGN.md section 4 (%s)" % p for p in ["C%02d" % i for i in range(1, 21)]}
-TECHNIQUE = {}
-LEVEL_NOTE = {}
+TECH_FUN = "explicit TLA+ functional specification; TLC enumerates the case space (one state per case, the specification's own laws as invariants); every case is evaluated on the real code and a log-driven TLA+ monitor judges the observations against the specification"
+NOTE_FUN = ("Trusted: TLC, the Json/IOUtils community modules, Go runtime, the harness's concretisation of abstract cases into real objects / requests and its projection of results. "
+            "Bounded: the enumerated value classes; inputs outside them are not explored.")
+TECHNIQUE = {p: TECH_FUN for p in ("C14", "C16", "C17", "C18")}
+TECHNIQUE["C19"] = "explicit TLA+ spec model-checked with TLC + trace validation of the real configuration manager and loaders (TLC-generated update/read sequences replayed, seeded random sequences, log-driven TLA+ monitor)"
+TECHNIQUE["C20"] = "explicit TLA+ specs with fault and crash actions model-checked with TLC + trace validation of the real controllers under injected API faults and crashes (drain to quiescence, log-driven TLA+ monitors)"
+LEVEL_NOTE = {p: NOTE_FUN for p in ("C14", "C16", "C17", "C18")}
 ENGINE_TEXT = "TLA+ specs in spec/ checked by TLC; Go harness in harness/ runs the real controllers in a deterministic simulated world; spec/trace monitors judge recorded traces"
 NOT_APPLICABLE = {}
